@@ -906,7 +906,13 @@ where
     ) -> Vec<GenericEvent<PacketIdType>> {
         let mut events = Vec::new();
         self.pingreq_user_send_interval_ms = duration_ms;
-        if let Some(ms) = duration_ms {
+        if self.is_client && self.status != ConnectionStatus::Disconnected {
+            // On the side that sent the CONNECT the interval in force (this override, else
+            // Server Keep Alive, else the CONNECT keep alive) may just have changed in either
+            // direction - also by removing the override: the timer follows at once, not only
+            // after the next packet that happens to be sent.
+            self.send_post_process(&mut events);
+        } else if let Some(ms) = duration_ms {
             if ms == 0 {
                 if self.pingreq_send_set {
                     self.pingreq_send_set = false;
